@@ -121,6 +121,9 @@ def systematic_histories():
                     yield {"T": 2, "ops": ops}
 
 
+DICT_CASES = []      # (keys of the first operand, keys of the second, merge accepted) for Qv.C15.mergeable
+
+
 def subclass_polling(rep, rng, tier):
     """McResult / NmmcResult (every trajectory enters with its weight times its time-dependent trace): averages polled
     while trajectories are still being added, after merges, and on a fresh object fed in another order, against the
@@ -364,7 +367,9 @@ def subclass_polling(rep, rng, tier):
                     rep.count("merge-dict-e_ops")
                     try:
                         m = r1 + r2
+                        DICT_CASES.append((list(e1), list(e2), True))
                     except ValueError:
+                        DICT_CASES.append((list(e1), list(e2), False))
                         rep.count("merge-dict-e_ops-refused")
                         if perm == [0, 1, 2]:
                             viol.append((f"merge-dict-refused:{cls.__name__}", f"{cls.__name__}: merging two results whose e_ops are the same dictionary is refused"))
@@ -789,6 +794,16 @@ def run(tier, seed, replay):
             if sig not in seen_sig:
                 seen_sig.add(sig)
                 rep.violation(core.Violation("C15:" + sig, what, {"what": what}))
+    # which pairs of key orders `merge` accepts, against Qv.C15.mergeable
+    if DICT_CASES:
+        dm = core.run_driver(["C15.dict_merge " + json.dumps({"a": a_, "b": b_}) for a_, b_, _ in DICT_CASES])
+        for (a_, b_, acc_), m_ in zip(DICT_CASES, dm):
+            rep.count("dict-merge-correspondence")
+            if not isinstance(m_, dict) or m_.get("mergeable") != acc_:
+                ndis += 1
+                if first_dis is None:
+                    first_dis = {"op": "C15.dict_merge", "keys": [a_, b_], "model": m_, "impl_accepts": acc_}
+        del DICT_CASES[:]
     rep.notes["correspondence_disagreements"] = ndis
     if ndis:
         rep.broken.append({"kind": "correspondence", "which": "C15.history", "count": ndis, "first": first_dis})
